@@ -2,6 +2,7 @@
 import Driver.Tbl
 import Driver.Parse
 import Driver.W2X
+import Driver.EncX
 open Driver
 
 def dispatch (line : String) : String :=
@@ -11,6 +12,9 @@ def dispatch (line : String) : String :=
   | "TBL" :: rest => tbl rest
   | "PARSE" :: rest => parseVerb rest
   | "W2X" :: rest => w2xVerb rest
+  | "ENCX" :: rest => encxVerb rest
+  | "W2T" :: rest => w2tVerb rest
+  | "T2T" :: rest => t2tVerb rest
   | _ => "BADVERB"
 
 partial def loop (h : IO.FS.Stream) (out : IO.FS.Stream) : IO Unit := do
